@@ -104,6 +104,7 @@ func main() {
 		verbose    = flag.Bool("v", false, "print every obligation")
 		list       = flag.Bool("list", false, "list rules and property mapping")
 		manifest   = flag.Bool("manifest", false, "print MANIFEST.json generated from the property table")
+		describe   = flag.String("describe", "", "developer aid: print canonical descriptions of the calls/stores of pkg:Func")
 	)
 	flag.Parse()
 	if *manifest {
@@ -126,6 +127,15 @@ func main() {
 		return
 	}
 
+	if *describe != "" {
+		ctx, err := load(*repo, nil)
+		if err != nil {
+			fmt.Fprintln(os.Stderr, err)
+			os.Exit(2)
+		}
+		dumpDescribe(ctx, *describe)
+		return
+	}
 	if *replay != "" {
 		os.Exit(doReplay(root, *repo, *replay))
 	}
